@@ -26,7 +26,7 @@ TABLE = [
     (r"^SealedState::apply_tip_906_for_next_state\|assert\|Overflow\(Sub\)\|phi\(", "inv", "progress counter starts at tree.count() and is decremented once per iterated entry of the same tree"),
     (r"^SealedState::apply_tip_906_for_next_state\|unwrap\|expect\|stdcode::deserialize\(elem\(Tree::iter", "inv", "before TIP-906 the coin tree holds only CoinDataHeight entries: count entries are written only when tip_906 (C20.R1)"),
     (r"^(SealedState::confirm|StakeSet::total_votes|StakeSet::votes)(::c\d+)?\|(extern\|sum\||assert\|Overflow\(Add\)\|.*syms_staked)", "assume", "Σ syms_staked ≤ SYM supply ≤ 2^127: every transaction-made stake locks a distinct real coin of that value (C13.R1); genesis stakes are configuration"),
-    (r"^SealedState::header::c0\|unwrap\|unwrap\|SmtMapping::get\(\^inner\.history", "inv", "next_unsealed inserts the header of height h−1 before a state of height h exists (C07.R2)"),
+    (r"^SealedState::header(::c0)?\|unwrap\|unwrap\|SmtMapping::get\((\^inner|\$1\.0)\.history", "inv", "next_unsealed inserts the header of height h−1 before a state of height h exists (C07.R2)"),
     (r"^SealedState::next_unsealed\|extern\|<melstructs::BlockHeight as std::ops::AddAssign>::add_assign", "assume", "height < u64::MAX (bounded horizon)"),
     (r"^StakeSet::post_tip911\|assert\|Overflow\(Add\)\|\$2,1", "assume", "epoch < u64::MAX"),
     (r"^Tip911::calculate_merkle::c0\|index\|index\|\^self\.stakes,RangeToInclusive", "inv", "k ranges over 0..stakes.len()"),
